@@ -4,6 +4,7 @@ import Fabio.Lemmas.C05Rebuild
 import Fabio.Lemmas.C05Glue
 import Fabio.Lemmas.C05Lang
 import Fabio.Lemmas.C05Fix
+import Fabio.Lemmas.C05From
 /-!
 C05 — route commands mean what the command language says: property theorems.
 
@@ -828,6 +829,68 @@ theorem rendered_text_is_fixpoint (pf : ParseFloat)
     rw [hparse]; simp only; rw [hn]
 
 
+/-- **rendered_text_is_fixpoint_exact**: if moreover the fixed weights are ≥ 0 with at most four decimals and the
+options are stored key-sorted (every table built from a text `String()` wrote is such a table), `String()` of the
+rebuilt table *is* the text it was read from -/
+theorem rendered_text_is_fixpoint_exact (pf : ParseFloat)
+    (hpf : ∀ w : Rat, 0 < w → pf (fmt4 w) = some (.fin (round4Rat w)))
+    (hg : Good env t) (hs : C05Fix.Sorted t)
+    (htext : ∀ hst, ∀ r ∈ t.get hst, ∀ tg ∈ r.targets, C05Text.TextOK r tg)
+    (ho : C05Rebuild.RebuildOK env t)
+    (hx : ∀ hst, ∀ r ∈ t.get hst, ∀ tg ∈ r.targets,
+      0 ≤ tg.fixedWeight ∧ (0 < tg.fixedWeight → round4Rat tg.fixedWeight = tg.fixedWeight) ∧ sortOpts tg.opts = tg.opts) :
+    ∃ t2, loadTable env pf (render t) = .ok t2 ∧ render t2 = render t := by
+  obtain ⟨t2, hl, hr⟩ := rendered_text_is_fixpoint pf hpf hg hs htext ho
+  refine ⟨t2, hl, ?_⟩
+  rw [hr]
+  apply C05Fix.render_canonical (C05Fix.wf_norm hg.inv.wf) hg.inv.wf (C05Fix.noEmpty_norm hg.inv.noEmpty) hg.inv.noEmpty
+    (C05Fix.sorted_norm hs) hs
+  intro h p
+  rw [C05Fix.abs_norm, List.map_map]
+  apply List.map_congr_left
+  intro x hxm
+  have hne : abs t h p ≠ [] := by intro e; rw [e] at hxm; cases hxm
+  obtain ⟨r, hr', _, htg⟩ := C05Fix.mem_get_of_abs hne
+  obtain ⟨h0, h4, hso⟩ := hx h r hr' x (by rw [htg]; exact hxm)
+  simp only [Function.comp, C05Fix.coreT, norm4]
+  rw [hso]
+  by_cases hp : 0 < x.fixedWeight
+  · rw [if_pos hp, h4 hp]
+  · rw [if_neg hp]
+    have : x.fixedWeight = 0 := Rat.le_antisymm (Rat.not_lt.mp hp) h0
+    rw [this]
+
+/-! ### round 4: no target comes from nowhere (`Lemmas/C05From.lean`) -/
+
+/-- **targets_come_from_adds**: every target a table built by a command list holds — under whatever host and path,
+after whatever dels and weights — carries the service, tags, options and normalised destination of one of the list's
+`route add` commands: `del` and `weight` never invent or rewrite any of these ("add accumulates", "weight changes
+only the matching targets" — and of them only the weight) -/
+theorem targets_come_from_adds {defs : List RouteDef} (h : newTable env defs = .ok t) (hst p : Str) :
+    ∀ x ∈ abs t hst p, ∃ d ∈ defs, d.cmd = .add ∧ x.service = d.service ∧ x.tags = d.tags ∧ x.opts = d.opts ∧
+      env.normURL d.dst = some x.url :=
+  C05From.newTable_from h hst p
+
+/-- **targets_of_wellformed_commands**: in a table built from well-formed commands (`DefOK`, e.g. from any text
+written with `printDef`) every target has a service, tags and options the command language can carry — the part of
+the round trip's hypothesis `TextOK` that concerns them holds for every such table -/
+theorem targets_of_wellformed_commands {pf : ParseFloat} (cs : List (Str × RouteDef))
+    (h : ∀ x ∈ cs, C05Lang.DefOK pf x.1 x.2) (ht : newTable env (cs.map (·.2)) = .ok t) (hst p : Str) :
+    ∀ x ∈ abs t hst p, C05Lang.Tok x.service ∧ C05Lang.TagsOK x.tags ∧ C05Lang.OptsOK x.opts := by
+  intro x hx
+  obtain ⟨d, hd, hc, h1, h2, h3, _⟩ := targets_come_from_adds ht hst p x hx
+  obtain ⟨c, hcm, rfl⟩ := List.mem_map.1 hd
+  have hok := h c hcm
+  unfold C05Lang.DefOK at hok
+  rw [hc] at hok
+  rw [h1, h2, h3]
+  exact ⟨hok.1, hok.2.2.2.2.1, hok.2.2.2.2.2⟩
+
+/-- not vacuous: the table of `csT` (two adds, a weight, a del) — its one remaining target is the first add's -/
+example : (match newTable C05Rebuild.env0 (C05Lang.csT.map (·.2)) with
+    | .ok t => (abs t "foo.com".toList "/a".toList).map (·.service) == ["svc".toList] | .error _ => false) = true := by
+  decide +kernel
+
 /-! ### the forced hypotheses are necessary (witnesses; the same inputs are replayed on the real code from
 `corpus/c05.roundtrip.jsonl`, where they are recorded findings) -/
 
@@ -892,6 +955,15 @@ theorem round_trip_instance :
 /-- `rendered_text_is_fixpoint` evaluated on the same table: the rebuilt table's text is the normalised text -/
 example : (match loadTable envW pfW (render C05Rebuild.tab0) with
     | .ok t2 => render t2 == render (C05Fix.normTable C05Rebuild.tab0) && !(render t2).isEmpty
+    | .error _ => false) = true := by decide +kernel
+
+/-- `rendered_text_is_fixpoint_exact` evaluated: a table built by commands (weights 1/4 and 3/4, a tag, two options),
+rendered, read, rendered again — the very same text -/
+example : (match newTable envW [addW "s" "http://a:1/" (1/4) [['x']] [("a".toList, "1".toList), ("b".toList, "2=3".toList)],
+      addW "t" "http://b:1/" (3/4)] with
+    | .ok t => (match loadTable envW pfW (render t) with
+        | .ok t2 => render t2 == render t && !(render t).isEmpty
+        | .error _ => false)
     | .error _ => false) = true := by decide +kernel
 
 end witnesses
